@@ -738,6 +738,13 @@ impl CodegenContext {
                         failure_message: interpolated_failure_message,
                         segment: self.current_segment.clone(),
                     }));
+                } else if self.options.enable_greedy_analysis {
+                    self.note_usages_in(value);
+                    if let Some(fm) = &failure_message {
+                        let ctx = self.get_evaluator();
+                        let _ = ctx.interpolate(fm, true);
+                        self.note_resolved_usages(ctx.usages());
+                    }
                 }
             }
             Token::Braces { block, scope } => {
@@ -1457,6 +1464,11 @@ impl CodegenContext {
                             }
                             None => {
                                 // No active test, so enumerate all tests
+                                // (and let the analysis have a look at what is in them, like it does with the branches
+                                // that are not taken)
+                                if self.options.enable_greedy_analysis {
+                                    self.analyse_untaken_branch(block);
+                                }
                                 true
                             }
                         };
@@ -1489,6 +1501,10 @@ impl CodegenContext {
                         snapshot: extracted_evaluator,
                         segment: self.current_segment.clone(),
                     }));
+                } else if self.options.enable_greedy_analysis {
+                    for (arg, _) in args.iter() {
+                        self.note_usages_in(arg);
+                    }
                 }
             }
             Token::VariableDefinition { ty, id, value, .. } => {
@@ -1538,6 +1554,27 @@ impl CodegenContext {
             self.record_usages(ctx.usages());
         }
         Ok(result)
+    }
+
+    /// For the benefit of the analysis: what does an expression refer to that is not evaluated here, since it is about the
+    /// state of a machine that runs a test ('cpu.a' and the like do not exist now, which is not an error)?
+    fn note_usages_in(&mut self, expr: &Located<Expression>) {
+        let ctx = self.get_evaluator();
+        let _ = ctx.evaluate_expression(expr, true);
+        self.note_resolved_usages(ctx.usages());
+    }
+
+    fn note_resolved_usages(&mut self, usages: Vec<SymbolUsage>) {
+        for usage in usages {
+            if usage.symbol_index.is_some() && !usage.is_query {
+                self.analysis.add_symbol_usage(
+                    &self.symbols,
+                    self.current_scope_nx,
+                    &usage.path.data,
+                    usage.path.span,
+                );
+            }
+        }
     }
 
     /// Registers what an evaluator looked up: every usage for the analysis, and what it could not find as undefined.
